@@ -266,7 +266,7 @@ pub fn run(ctx: &mut Ctx) {
     ctx.explore::<Unsup>(
         "unsupported",
         n,
-        &|| (streamable_spec(2000).prop_filter("non-empty", |s| !s.entries.is_empty()), any::<u16>(), 0u8..4).prop_map(|(spec, at, kind)| Unsup { spec, at, kind }).boxed(),
+        &|| (streamable_spec(2000).prop_filter("non-empty", |s| !s.entries.is_empty()), any::<u16>(), 0u8..6).prop_map(|(spec, at, kind)| Unsup { spec, at, kind }).boxed(),
         &|u: &Unsup, info: &mut Info| {
             let mut spec = u.spec.clone();
             let k = (u.at as usize * spec.entries.len()) >> 16;
@@ -276,13 +276,26 @@ pub fn run(ctx: &mut Ctx) {
                     spec.entries[k].enc = Enc::Aes { password: b"pw".to_vec(), salt_seed: vec![1], strength: 3, ae2: true };
                 }
                 2 => spec.entries[k].desc = Desc::Sig32,
-                _ => spec.entries[k].desc = Desc::NoSig64,
+                3 => spec.entries[k].desc = Desc::NoSig64,
+                4 => {
+                    // streaming ZIP64 producer: markers in the 32-bit fields, zeros in the ZIP64 record
+                    spec.entries[k].desc = if u.at % 2 == 0 { Desc::Sig64 } else { Desc::NoSig64 };
+                    spec.entries[k].local_zip64 = true;
+                    spec.entries[k].desc_mode = 1;
+                }
+                _ => {
+                    // bit 3 set, descriptor present, but the header carries the real values: refusing is
+                    // fine, serving the entry is fine as long as it is the right data
+                    spec.entries[k].desc = [Desc::Sig32, Desc::NoSig32, Desc::Sig64, Desc::NoSig64][(u.at % 4) as usize];
+                    spec.entries[k].desc_mode = 2;
+                }
             }
+            let truth = spec.entries[k].content.expand();
             if spec.entries[k].content.is_empty() {
                 spec.entries[k].content = Content::Bytes(b"non-empty".to_vec());
             }
             info.nontrivial = true;
-            info.label(["zipcrypto", "aes", "descriptor-sig32", "descriptor-nosig64"][u.kind as usize]);
+            info.label(["zipcrypto", "aes", "descriptor-sig32", "descriptor-nosig64", "descriptor-zip64-markers", "descriptor-with-sizes-in-header"][u.kind as usize]);
             let b = match build::build(&spec) {
                 Ok(b) => b,
                 Err(_) => return Verdict::Pass,
@@ -292,8 +305,16 @@ pub fn run(ctx: &mut Ctx) {
                 for i in 0..spec.entries.len() {
                     match zip::read::read_zipfile_from_stream(&mut src) {
                         Ok(Some(mut f)) => {
+                            if i == k && u.kind == 5 {
+                                let (size, mut v) = (f.size(), Vec::new());
+                                let r = f.read_to_end(&mut v);
+                                if size != truth.len() as u64 || (r.is_ok() && v != truth) {
+                                    return Err(format!("data-descriptor entry {i} (sizes also in the local header) was served with wrong data: size() {size}, {} bytes read ({r:?}), entry holds {} bytes", v.len(), truth.len()));
+                                }
+                                return Ok(());
+                            }
                             if i == k {
-                                return Err(format!("entry {i} is {} but the stream returned it as readable", ["ZipCrypto-encrypted", "AES-encrypted", "a data-descriptor entry", "a data-descriptor entry"][u.kind as usize]));
+                                return Err(format!("entry {i} is {} but the stream returned it as readable (size() = {})", ["ZipCrypto-encrypted", "AES-encrypted", "a data-descriptor entry", "a data-descriptor entry", "a data-descriptor entry with ZIP64 markers and no sizes in its local header", ""][u.kind as usize], f.size()));
                             }
                             let mut v = Vec::new();
                             let _ = f.read_to_end(&mut v);
